@@ -229,3 +229,19 @@ m("last_partial_batch_dropped", ["C19"], (MG, "        if !batch.is_empty() {\n"
 m("footer_sliced_before_length_check", ["C20"], (MOD, "        let bytes = data.as_ref();\n        // The smallest FST", "        let bytes = data.as_ref();\n        let _tail = &bytes[bytes.len() - 16..];\n        // The smallest FST"))
 m("unsafe_read_u32", ["C20"], (BY, "    u32::from_le_bytes(slice[..4].try_into().unwrap())", "    assert!(slice.len() >= 4);\n    u32::from_le_bytes(unsafe { *(slice.as_ptr() as *const [u8; 4]) })"))
 m("verify_slices_fixed_36", ["C20", "C08"], (MOD, "summer.update(&self.as_bytes()[..self.as_bytes().len() - 4]);", "summer.update(&self.as_bytes()[..self.as_bytes().len().max(40) - 4]);"))
+
+# ---- defect G (fixed by 31bb6f9) reintroduced: zero-valued keys skip the output-redistributing walk
+m("zero_output_keys_skip_prefix_walk(defect G)", ["C01"], (B, """        let (prefix_len, out) =
+            self.unfinished.find_common_prefix_and_set_output(bs, out);""", """        let (prefix_len, out) = if out.is_zero() {
+            (
+                bs.iter()
+                    .zip(&self.unfinished.stack)
+                    .take_while(|&(&b, ref node)| {
+                        node.last.as_ref().map(|t| t.inp == b).unwrap_or(false)
+                    })
+                    .count(),
+                out,
+            )
+        } else {
+            self.unfinished.find_common_prefix_and_set_output(bs, out)
+        };"""))
